@@ -66,6 +66,9 @@ func runC18(w *World, r *Report) {
 	r.Borrow(w, runC06, map[string]string{"R3": "R6"})
 	la := NewLockAn(w)
 	checkGB(w, r, la, "R1", s1Table())
+	hrLockOwnersUsePointerReceivers(w, r, "R1", "lunar/")
+	hrVacuumStartOnce(w, r, la, "R1")
+	hrVersionBumpReturnsPrevious(w, r, "R1")
 	for _, p := range []struct{ pkg, fn, mp, lock string }{
 		{pkgQuota, "fixedWindow.getQuota", "fw.quotaGroups", "param:fw.getQuotaLock"},
 		{pkgLimit, "RateLimitState.getLimiterState", "state.groupsStateByLimiter", "param:state.mutex"},
